@@ -14,7 +14,11 @@
                built by init from v's own get() results), and K of (v, c) - this
                is the clause "two bitfields containing the same enumerators are
                equal and hash equally, however they were computed"
-   Record kinds (field f): pair, rel, single, elem, build, tree, hist. *)
+   Record kinds (field f): pair, rel, single, elem, build, tree, hist.
+   Operator names: set (set(e,b)), idx (field[e] = b), ore (field | e), orae
+   (field |= e), or/and/xor, ora/anda/xora (assigning forms), not, null, init,
+   ilist, copy, assign, array (construction from the word array), swap.
+   A reason is "<call whose result is not explained>/<what>@<where in the record>". *)
 EXTENDS Naturals, Sequences, FiniteSets, TLC, RecordLoop
 
 B(n) == INSTANCE Bitfield WITH N <- n
@@ -70,9 +74,9 @@ PairReasons(r) ==
   IN VReasons("or", "or", r.or, B(r.n)!Or(a, b))
      \cup VReasons("and", "and", r.and, B(r.n)!And(a, b))
      \cup VReasons("xor", "xor", r.xor, B(r.n)!Xor(a, b))
-     \cup VReasons("or_assign", "ora", r.ora, B(r.n)!Or(a, b))
-     \cup VReasons("and_assign", "anda", r.anda, B(r.n)!And(a, b))
-     \cup VReasons("xor_assign", "xora", r.xora, B(r.n)!Xor(a, b))
+     \cup VReasons("ora", "ora", r.ora, B(r.n)!Or(a, b))
+     \cup VReasons("anda", "anda", r.anda, B(r.n)!And(a, b))
+     \cup VReasons("xora", "xora", r.xora, B(r.n)!Xor(a, b))
      \cup RelReasons("rel", a, b, r.rel)
      \cup If(S(r.aa) # a, "operand/left-operand-of-value-operator-modified")
      \cup If(S(r.ba) # b, "operand/right-operand-modified")
@@ -88,9 +92,9 @@ SingleReasons(r) ==
   \cup VReasons(r.t.o, "can", r.can, a)
   \cup VReasons("not", "not", r.not, B(r.n)!Not(a))
   \cup VReasons("not", "notnot", r.notnot, a)
-  \cup VReasons("or_assign", "sora", r.sora, a)
-  \cup VReasons("and_assign", "sanda", r.sanda, a)
-  \cup VReasons("xor_assign", "sxora", r.sxora, {})
+  \cup VReasons("ora", "sora", r.sora, a)
+  \cup VReasons("anda", "sanda", r.sanda, a)
+  \cup VReasons("xora", "sxora", r.sxora, {})
   \cup RelReasons("rel", a, a, r.rel)
   \cup If(S(r.aa) # a, "operand/left-operand-of-value-operator-modified")
 
@@ -102,10 +106,10 @@ ElemReasons(r) ==
   IN If(e \notin 0..(n - 1), "HARNESS-PRECONDITION")
      \cup VReasons("set", "set1", r.set1, B(n)!SetBit(a, e, TRUE))
      \cup VReasons("set", "set0", r.set0, B(n)!SetBit(a, e, FALSE))
-     \cup VReasons("index_assign", "idx1", r.idx1, B(n)!SetBit(a, e, TRUE))
-     \cup VReasons("index_assign", "idx0", r.idx0, B(n)!SetBit(a, e, FALSE))
-     \cup VReasons("or_elem", "ore", r.ore, B(n)!SetBit(a, e, TRUE))
-     \cup VReasons("or_assign_elem", "orae", r.orae, B(n)!SetBit(a, e, TRUE))
+     \cup VReasons("idx", "idx1", r.idx1, B(n)!SetBit(a, e, TRUE))
+     \cup VReasons("idx", "idx0", r.idx0, B(n)!SetBit(a, e, FALSE))
+     \cup VReasons("ore", "ore", r.ore, B(n)!SetBit(a, e, TRUE))
+     \cup VReasons("orae", "orae", r.orae, B(n)!SetBit(a, e, TRUE))
      \cup If(r.g # m, "get/result")
      \cup If(r.ix # m, "index/result")
      \cup If(r.ixm # m, "index/result")
